@@ -41,8 +41,9 @@ CLAIMED = {
              "by a proved complement lemma); toXmlName is total on non-empty names, yields a legal name for every BMP name, "
              "is the identity on legal names, and the sequential str.replace loop equals the simultaneous substitution for "
              "ANY set iteration order; coerced comments have no '--'/trailing '-' (preventDoubleDashComments); coerced "
-             "pubids contain only PubidChars. The inverse clause (fromXmlName o toXmlName = id) is decided by exhaustive "
-             "search on the real code only (partial).",
+             "pubids contain only PubidChars. The inverse clause is proved too (C20b): for BMP names "
+             "without a U+hex escape pattern fromXmlName(toXmlName(name)) = name, hence injectivity; the hypothesis is shown "
+             "necessary by a witness.",
         note="Lean kernel; standard axioms; Python re/str.replace/set semantics modelled; expat used only as an oracle.",
         technique="Lean 4 proof (kernel-decided range tables + lemmas) + differential correspondence",
         design="6/C20"),
@@ -63,8 +64,9 @@ CLAIMED = {
         text="Hand model of the whole tokenizer in Lean (one function per state method, explicit Python exception sites, "
              "explicit fuel) tied to the real tokenizer by exact comparison (tokens, chunking, parse errors, number of state "
              "calls, generator-pull interface) on ~60k inputs per quick run / >1M thorough, all 67 states reached. "
-             "Proved so far: tag/attribute names are lower-cased exactly on A-Z (table lifted to all code points), "
-             "idempotence. The simulation against the WHATWG state machine is not proved; the WHATWG clause is decided "
+             "Proved: tag/attribute names are lower-cased exactly on A-Z (table lifted to all code points); duplicate "
+             "attributes: the first one wins and first-occurrence order is kept (dict(raw)+update(raw[::-1]) = dedupFirst, "
+             "and emitCurrentToken emits exactly that). The simulation against the WHATWG state machine is not proved; the WHATWG clause is decided "
              "by differential search (partial).",
         note="Lean kernel; standard axioms; hand model tied by correspondence; stream layer excluded (C05).",
         technique="Lean 4 model + lemmas; differential correspondence against the real tokenizer",
@@ -83,8 +85,11 @@ CLAIMED = {
         text="Lean theorem C11_walk: for EVERY tree the non-recursive walker (hand model of NonRecursiveTreeWalker.__iter__ "
              "over a zipper cursor) terminates within 2*size+1 iterations and emits exactly the recursive token stream of "
              "the tree (invariant `remaining` + explicit decreasing measure). Model tied to the real walkers by op walk on "
-             "trees read by direct traversal from real minidom/ElementTree objects (parsed and hand-made). Lint acceptance, "
-             "rebuild and etree==dom stream equality are decided on the real code (search); their Lean theorems are pending.",
+             "trees read by direct traversal from real minidom/ElementTree objects (parsed and hand-made). Also proved (C11b): the stream of a "
+             "well-formed tree passes the model of lint.Filter (balanced, void elements only as EmptyTag, names non-empty), "
+             "text is split into at most three non-empty pieces whose concatenation is the text, and REBUILDING the stream "
+             "gives back the walked tree up to text normalisation (general case). etree==dom stream equality is decided on "
+             "the real code.",
         note="Lean kernel; standard axioms; per-backend cursor code abstracted to a zipper (correspondence only).",
         technique="Lean 4 proof (zipper invariant + termination measure) + differential correspondence",
         design="6/C11"),
@@ -192,6 +197,22 @@ CLAIMED = {
         note="search on the real code; component models tied separately; composition not proved.",
         technique="component Lean models + end-to-end re-parse safety search on the real code",
         design="6/C10"),
+    "C09": dict(
+        category="proof",
+        text="62 Lean theorems over a hand model of the sanitizer with ALL allow-lists as parameters (defaults extracted each "
+             "run) and every regular expression translated from Python's own parse into a Lean regex AST run by a small "
+             "backtracking engine with sre semantics (engine soundness proved against a declarative semantics): for every "
+             "token list and every list configuration the output has only allow-listed elements and attributes and no "
+             "comments; a disallowed tag becomes exactly one Characters token starting with '<'; a kept URI attribute has no "
+             "scheme or an allowed one AS A BROWSER RESOLVES IT (key lemma: browserScheme v = some s forces urlsplit(clean v) "
+             "to yield s; CPython 3.12 urlsplit modelled incl. its ValueError branches); emitted CSS declarations have allowed "
+             "properties; every '(' in sanitize_css output is followed only by digits/commas/white space up to ')'. The "
+             "literal 'never url()' clause and the browser-side reading of data: content types are false on the pinned tree "
+             "(witness theorems + recorded findings). Model, regex engine, urlsplit and str.lower tables are tied by ops "
+             "san, san:css, san:scheme, re:* (exhaustive short strings per pattern) on ~250k cases per quick run.",
+        note="Lean kernel; standard axioms; Python re / urllib.parse / str.lower modelled and validated by correspondence.",
+        technique="Lean 4 proof over parametric sanitizer model + translated regexes; differential correspondence; oracle",
+        design="6/C09"),
 }
 
 PENDING_REASON = "check under construction in this round: model/theorems not yet committed (see DESIGN section 8); not claimed"
